@@ -6,7 +6,7 @@
    (Identifiers are taken over ASCII letters, digits and `_`; the full Unicode alphanumeric table is
    not modelled.)  The model as a whole is tied to the real expander by the exhaustive
    short-template comparison. *)
-From FR Require Import Base Utf8 Utf8Facts Sem Api Expand ExpandProofs.
+From FR Require Import Base Utf8 Utf8Facts Sem Api Expand ExpandProofs ExpandPython.
 
 Theorem C12_escape_roundtrip_default : forall s c, valid_text s ->
   expansion expander_default (fst (x_escape expander_default s)) c = s.
@@ -81,6 +81,51 @@ Example ex_doc :
   = [36;45;97;45;97;45;45;45;97;120].
 Proof. vm_compute. reflexivity. Qed.
 
+(* ---- the Python-style expander and numeric references ---- *)
+(* `\g<name>` refers to name *)
+Theorem C12_python_named : forall name rest, name <> [] -> Forall idb name ->
+  steps expander_python (92 :: 103 :: 60 :: name ++ 62 :: rest) = StName name :: steps expander_python rest.
+Proof. exact steps_python_named. Qed.
+
+(* `\N` takes the longest run of decimal digits (a value that fits usize) *)
+Theorem C12_python_number : forall ds rest, ds <> [] -> digits ds -> not_digit_next rest ->
+  (dec_value ds <= usize_max)%N ->
+  steps expander_python (92 :: ds ++ rest) = StNum (dec_value ds) :: steps expander_python rest.
+Proof. exact steps_python_number. Qed.
+
+(* a substitution character followed by nothing the syntax knows is an error step for `check`
+   and is then copied verbatim, like everything after it *)
+Theorem C12_python_stray : forall b rest, (b =? 92) = false -> (b =? 103) = false -> is_digit_b b = false ->
+  steps expander_python (92 :: b :: rest) = StError :: StChar [92] :: steps expander_python (b :: rest).
+Proof. exact steps_python_stray. Qed.
+Theorem C12_default_stray : forall b rest, b < 128 -> is_id_cp b = false -> (b =? 36) = false -> (b =? 123) = false ->
+  steps expander_default (36 :: b :: rest) = StError :: StChar [36] :: steps expander_default (b :: rest).
+Proof. exact steps_default_stray. Qed.
+
+(* `$N` / `${N}` of the default expander is the name step of the digit string; when no group has
+   that NAME it inserts what the number inserts: the group's text, or nothing if there is no such
+   group *)
+Theorem C12_named_number : forall c ds, ds <> [] -> digits ds -> (dec_value ds <= usize_max)%N ->
+  lookup_name (cp_names c) ds = None ->
+  expand_step c (StName ds) = expand_step c (StNum (dec_value ds)).
+Proof. exact expand_named_number. Qed.
+Theorem C12_number_in_range : forall c n lo hi, (n < N.of_nat (length (cp_saves c)))%N ->
+  cap_get (cp_saves c) (N.to_nat n) = Some (V lo, V hi) ->
+  expand_step c (StNum n) = slice (cp_text c) lo hi.
+Proof. exact expand_number_in_range. Qed.
+Theorem C12_number_absent : forall c n, (N.of_nat (length (cp_saves c)) <= n)%N -> expand_step c (StNum n) = [].
+Proof. exact expand_number_absent. Qed.
+
+(* non-vacuity of the Python laws: "\\-\g<n>-\1x-\2-\q" *)
+Example ex_doc_python :
+  let c := {| cp_text := [97; 98]; cp_saves := [V 0; V 2; V 0; V 1; MAXV; MAXV];
+              cp_names := [([110], 1)] |} in
+  expansion expander_python
+    [92;92;45;92;103;60;110;62;45;92;49;120;45;92;50;45;92;113] c
+  = [92;45;97;45;97;120;45;45;92;113].
+Proof. vm_compute. reflexivity. Qed.
+
+
 Print Assumptions C12_escape_roundtrip_default.
 Print Assumptions C12_escape_roundtrip_python.
 Print Assumptions C12_escape_borrow.
@@ -90,3 +135,10 @@ Print Assumptions C12_no_reference_identity.
 Print Assumptions C12_doubled.
 Print Assumptions C12_braced.
 Print Assumptions C12_bare_longest.
+Print Assumptions C12_python_named.
+Print Assumptions C12_python_number.
+Print Assumptions C12_python_stray.
+Print Assumptions C12_default_stray.
+Print Assumptions C12_named_number.
+Print Assumptions C12_number_in_range.
+Print Assumptions C12_number_absent.
